@@ -79,6 +79,67 @@ theorem C15_no_ordered_site : ∀ s ∈ Gen.orderSites, s.cls ≠ .ordered := by
 from the registered graph (taint analysis of harness/translators/ordersites.py; the lazy adjacency cache lives in `self.*`) -/
 theorem C15_no_mutation_site : Gen.mutationSites = [] := by decide +kernel
 
+/-! ### histories: the only state a compilation may leave behind is the lazily built adjacency
+
+The registered definitions `D` and a cache that, when filled, holds `adj defs` — this is the shape of a layer between two
+compile() calls provided (a) no statement writes to the definitions (`C15_no_mutation_site`) and (b) the methods of the
+objects that outlive a call write no instance state other than that cache (`C15_persistent_state`, regenerated). -/
+
+structure LState (D A : Type) where
+  defs : D
+  cache : Option A
+
+/-- one compile()/explain() call: build the adjacency if it is not there, generate from definitions and adjacency -/
+def compileStep {D A Q O : Type} (adj : D → A) (gen : D → A → Q → O) (s : LState D A) (q : Q) : LState D A × O :=
+  let a := match s.cache with | some a => a | none => adj s.defs
+  ({ s with cache := some a }, gen s.defs a q)
+
+def CacheInv {D A : Type} (adj : D → A) (s : LState D A) : Prop := ∀ a, s.cache = some a → a = adj s.defs
+
+theorem compileStep_inv {D A Q O : Type} (adj : D → A) (gen : D → A → Q → O) (s : LState D A) (q : Q) (h : CacheInv adj s) :
+    CacheInv adj (compileStep adj gen s q).1 ∧ (compileStep adj gen s q).1.defs = s.defs ∧
+    (compileStep adj gen s q).2 = gen s.defs (adj s.defs) q := by
+  unfold compileStep CacheInv at *
+  cases hc : s.cache with
+  | none => simp
+  | some a => have := h a hc; subst this; simp
+
+/-- **History independence.** After ANY sequence of other compilations on the same layer, a query compiles to exactly what
+it compiles to on a fresh layer, and the definitions are the ones that were registered. -/
+theorem C15_history_independent {D A Q O : Type} (adj : D → A) (gen : D → A → Q → O) (s : LState D A) (h : CacheInv adj s)
+    (hist : List Q) (q : Q) :
+    let s' := hist.foldl (fun s x => (compileStep adj gen s x).1) s
+    (compileStep adj gen s' q).2 = (compileStep adj gen { defs := s.defs, cache := none } q).2 ∧ s'.defs = s.defs := by
+  induction hist generalizing s with
+  | nil =>
+    simp only [List.foldl_nil]
+    refine ⟨?_, trivial⟩
+    rw [(compileStep_inv adj gen s q h).2.2]; simp [compileStep]
+  | cons x xs ih =>
+    simp only [List.foldl_cons]
+    have hx := compileStep_inv adj gen s x h
+    have := ih (compileStep adj gen s x).1 hx.1
+    simp only [hx.2.1] at this
+    exact this
+
+example : CacheInv (fun (d : Nat) => d + 1) { defs := 3, cache := some 4 } := by intro a h; simp at h; simp [← h]
+
+/-- the methods through which definitions are registered (they write state by design) -/
+def registrationFns : List String := ["__init__", "add_model", "add_metric", "add_table_calculation", "add_parameter", "_add_metric_impl"]
+
+/-- **Obligation on the current sources**: the objects that outlive a compile() call — the graph and the layer — write no
+instance state outside the registration methods other than the lazy adjacency (and its dirty flag) -/
+theorem C15_persistent_state :
+    ∀ w ∈ Gen.stateWrites, w.2.1 ∈ ["SemanticGraph", "SemanticLayer"] →
+      w.2.2.1 ∈ registrationFns ∨ w.2.2.2 ∈ ["_adjacency", "_adjacency_dirty"] := by decide +kernel
+
+/-- **Obligation on the current sources**: the only memoised function takes no argument (a constant) -/
+theorem C15_memo_sites_constant : ∀ m ∈ Gen.memoSites, m.2.2 = 0 := by decide +kernel
+
+/-- not vacuous: the scan sees the adjacency being built -/
+theorem C15_state_scan_nonempty :
+    ("core/semantic_graph.py", "SemanticGraph", "build_adjacency", "_adjacency") ∈ Gen.stateWrites := by decide +kernel
+
 /-- the scan is not vacuous: it sees the sorted CTE-emission sites of the generator -/
 theorem C15_sites_nonempty : Gen.orderSites.length ≥ 10 ∧
     (Gen.orderSites.any fun s => s.function == "_build_model_cte" && s.cls == .sorted) = true := by decide +kernel
